@@ -11,8 +11,10 @@ import (
 	"bytes"
 	"fmt"
 	"io"
+	"net"
 	"sort"
 	"strings"
+	"sync"
 	"testing"
 	"time"
 
@@ -412,7 +414,7 @@ func TestC11(t *testing.T) {
 // (TCP_NODELAY, a pause between writes) to the real accept/receive goroutines;
 // the backends must receive exactly those messages, each intact.
 func c11Lab(t *testing.T) {
-	V.Require("lab: segmented stream relayed intact", "lab: a pause of about a second between two segments")
+	V.Require("lab: other peers aborted in the middle of an over-long header line just before", "lab: segmented stream relayed intact", "lab: a pause of about a second between two segments")
 	svc, err := newStdSvc(stdVariant{})
 	if err != nil {
 		V.HarnessError(t, "cannot start lab instance: %v", err)
@@ -422,6 +424,7 @@ func c11Lab(t *testing.T) {
 		entry := rapid.IntRange(0, 1).Draw(rt, "entry")
 		l := s.in.cfg.Listens[entry]
 		n := rapid.IntRange(1, 6).Draw(rt, "messages")
+		aborted := rapid.IntRange(0, 5).Draw(rt, "other peers abort in the middle of an over-long header line just before") == 0
 		var msgs []*AMsg
 		var stream []byte
 		var wires [][]byte
@@ -448,6 +451,10 @@ func c11Lab(t *testing.T) {
 				}
 				hs = append(hs, h)
 			}
+			if aborted {
+				// (then this stream has header lines longer than the reader window, too)
+				hs = append([]AHdr{{Kind: hExt, Name: "X-Long-Line", SP: " ", Value: strings.Repeat(fmt.Sprintf("m%d.", i), rapid.IntRange(1100, 2400).Draw(rt, "long units"))}}, hs...)
+			}
 			m.Hdrs = hs
 			msgs = append(msgs, m)
 			wires = append(wires, m.Bytes())
@@ -456,6 +463,31 @@ func c11Lab(t *testing.T) {
 		// segmentation
 		var cuts []int
 		L := len(stream)
+		if aborted {
+			// other peers, just before: each stops several KiB into a header line that
+			// never ends, and resets its connection
+			var wg sync.WaitGroup
+			for k, n := 0, rapid.IntRange(3, 8).Draw(rt, "peers that abort"); k < n; k++ {
+				part := []byte(fmt.Sprintf("MESSAGE sip:u@svc.test SIP/2.0\r\nVia: SIP/2.0/TCP %s:5060;branch=z9hG4bKab%d\r\nX-Never-Ends: %s", s.ip(12), k, strings.Repeat(fmt.Sprintf("stale-%d.", k), rapid.IntRange(500, 1400).Draw(rt, "units written"))))
+				wg.Add(1)
+				go func() {
+					defer wg.Done()
+					c, err := net.DialTimeout("tcp", fmt.Sprintf("%s:%d", l.Addr, l.TCPPort), 5*time.Second)
+					if err != nil {
+						return
+					}
+					c.Write(part)
+					time.Sleep(3 * time.Millisecond)
+					if tc, ok := c.(*net.TCPConn); ok {
+						tc.SetLinger(0)
+					}
+					c.Close()
+				}()
+			}
+			wg.Wait()
+			time.Sleep(2 * time.Millisecond)
+			V.Class("lab: other peers aborted in the middle of an over-long header line just before")
+		}
 		switch rapid.IntRange(0, 3).Draw(rt, "recipe") {
 		case 0:
 			for i, k := 0, rapid.IntRange(1, 30).Draw(rt, "k"); i < k; i++ {
